@@ -59,4 +59,16 @@ CHECKS = {
               'tied by the PDU-level correspondence of C03/C06, not yet by a theorem.'),
         note=COMMON_NOTE + 'The UCS2 path is modelled on UTF-16 code units (code chunks octets with even sizes; evenness is a decide obligation on the regenerated constants). CPython utf_16_be codec modelled and swept. Encodings other than gsm0338/ucs2 take the UCS2 path in the code and in the model (property domain: the two alphabets).',
         technique='Lean 4 theorems (induction over the chunk loop with a unit-boundary invariant; GSM/UTF-16 round-trip lemmas); differential correspondence + independent-receiver predicate'),
+    'C18': dict(
+        text=('Proof, partial in one clause. Props/C18.lean over exact-rational models of SimpleRateLimiter and '
+              'SimpleThrottleHandler: (1) window bound proved at full strength: from every reachable state, any attempts at '
+              't0 <= ... <= tn pass at most rate*(tn-t0)+rate+1 (potential argument, induction over the attempt list, all '
+              'positive rates); (2) progress proved for rates >= 1/s (pass at the first or second retry after >= 1 s sleeps); '
+              'the clause for rates below 1/s is FALSE of the code (theorem starves_below_one; known finding '
+              'limiter-rate-below-one, replayed on the real object every run); (3) throttle: denied iff sample_size '
+              'responses are in and the rounded percentage exceeds deny_request_at, never otherwise; window reset exactly '
+              'after sampling_period; sending resumes after the reset. The gate in the sender loop (consulted before each '
+              'PDU) is covered by the session-level correspondence (C15/C06 harness), not by these theorems.'),
+        note=COMMON_NOTE + 'IEEE doubles are not modelled: the generator uses dyadic rates and times so that every float the code computes is exact; round(x,2) is modelled as round-half-even on the exact rational and inputs within 0.005 of the threshold are outside the predicate. Mathlib (linarith, ring, ordered-field instance of Rat) is used in the lemma file only.',
+        technique='Lean 4 theorems (potential-function invariant by induction over attempt lists, linarith over Rat); differential correspondence on a virtual clock'),
 }
